@@ -182,6 +182,10 @@ def sln_adjoint(mat, inv=None, **kwargs):
     if inv is None:
         inv = utils.invert(mat)
 
+    # take the type of the result from the matrix (otherwise it is
+    # taken from the function passed below, giving dtype object)
+    kwargs.setdefault("like", mat)
+
     return sln_linear_action(
         lambda M: mat @ M @ inv,
         n, **kwargs
@@ -191,6 +195,10 @@ def gln_adjoint(mat, inv=None, **kwargs):
     n = mat.shape[-1]
     if inv is None:
         inv = utils.invert(mat)
+
+    # take the type of the result from the matrix (otherwise it is
+    # taken from the function passed below, giving dtype object)
+    kwargs.setdefault("like", mat)
 
     return linear_matrix_action(
         lambda M: mat @ M @ inv,
